@@ -16,6 +16,9 @@ func gen(c *hmain.Ctx) {
 			jobs = append(jobs, &pipedrv.Job{Stream: stream, Case: pipedrv.GenCase(c.R, o)})
 		}
 	}
+	for i := 0; i < 16*c.Scale; i++ {
+		jobs = append(jobs, &pipedrv.Job{Stream: "timeout-vs-put", Case: pipedrv.TimeoutVsPut(2+2*(i%2), i%4 < 2, i%8 < 4)})
+	}
 	add("basic", pipedrv.FamBasic, 60)
 	add("hold", pipedrv.FamHold, 80)
 	add("split", pipedrv.FamSplit, 30)
@@ -31,5 +34,5 @@ func gen(c *hmain.Ctx) {
 func main() {
 	hmain.Run(&hmain.Prop{ID: "C02",
 		Rule: "each case = (pipeline config: processors, pool kind/capacity, event time-out, action count, output kind/workers/batch size/retry/dead queue; per-source feeder scripts of JSON events whose 'ops' field scripts every action: pass/discard/hold/continue/break/split; send delay/failure plan) run on the real pipeline; observable = label trace of streams, processors, finalize, batchers. Every case is non-trivial (>= 3 events); distinct = distinct case text.",
-		Gen: gen, Exec: func(which int, cs hx.Sx) hx.Sx { return pipedrv.RunCase(cs) }})
+		Gen:  gen, Exec: func(which int, cs hx.Sx) hx.Sx { return pipedrv.RunCase(cs) }})
 }
